@@ -235,8 +235,15 @@ func examineSnaps(
 	data := bytes.Buffer{}
 	testIDs := []string{}
 
+	// only a run that may remove or sort snapshots needs to write, reporting obsolete
+	// snapshots must also work on a read only checkout (e.g. on CI)
+	flag := os.O_RDONLY
+	if update || sort {
+		flag = os.O_RDWR
+	}
+
 	for _, snapPath := range used {
-		f, err := os.OpenFile(snapPath, os.O_RDWR, os.ModePerm)
+		f, err := os.OpenFile(snapPath, flag, os.ModePerm)
 		if err != nil {
 			return nil, err
 		}
